@@ -101,17 +101,24 @@ def obligations(chk):
     func = f"{INSP}.unwrap"
     box = {}
 
+    # the loop's two locals by role: the parameter being peeled, and the local that remembers its previous value (`<x> = <param>`)
+    import ast as _ast
+    _m, _c, _node = I.src.find_def(func)
+    T = _node.args.args[0].arg
+    LT = next((a.targets[0].id for a in _ast.walk(_node) if isinstance(a, _ast.Assign) and len(a.targets) == 1 and isinstance(a.targets[0], _ast.Name)
+               and isinstance(a.value, _ast.Name) and a.value.id == T and a.targets[0].id != T), "lt")
+
     def havoc(I, path, env, k):
-        env.set("t", SV(path.fresh("t_loop")))
-        env.set("lt", SV(path.fresh("lt_loop")))
+        env.set(T, SV(path.fresh("t_loop")))
+        env.set(LT, SV(path.fresh("lt_loop")))
 
     def inv(I, path, env, k):
-        t, lt = to_val(env.lookup("t")), to_val(env.lookup("lt"))
+        t, lt = to_val(env.lookup(T)), to_val(env.lookup(LT))
         t0 = box["t0"]
         return [base(t) == base(t0), z3.Implies(lt == t, z3.Not(wrapper(t)))]
 
     spec = LoopSpec("layers", havoc, inv)
-    spec.variant = lambda I, path, env: depth(to_val(env.lookup("t")))
+    spec.variant = lambda I, path, env: depth(to_val(env.lookup(T)))
     I.loop_specs[(func, 0)] = spec
 
     def mk(I, path):
